@@ -69,8 +69,22 @@ MeshRunOK(e) == /\ e.panics = 0 /\ ~e.self_peer
 SelfDialOK(e) == /\ e.panics = 0 /\ ~e.self_peer /\ ~e.pending_left
                  /\ e.in_mesh => (e.learnt /\ e.dials_of_own_alias = 0 /\ e.mesh_ok)
 
+\* C12 ---------------------------------------------------------------------------------------------------------------
+\* the routing table of a node compared with its peer list after a step (restart with other claims, silence, close,
+\* failing second handshake, traffic, time): for every peer entry the claims attributed to its address are exactly those
+\* of the last announcement of that peer instance; every claim and every cached decision points at a current peer
+C12DumpOK(e) ==
+  LET peerAddrs == {e.peers[i].a : i \in 1..Len(e.peers)} IN
+  /\ \A i \in 1..Len(e.peers) :
+        {e.claims[k].r : k \in {k \in 1..Len(e.claims) : e.claims[k].p = e.peers[i].a}} = SeqSet(e.peers[i].expect)
+  /\ \A k \in 1..Len(e.claims) : e.claims[k].p \in peerAddrs
+  /\ \A k \in 1..Len(e.cache) : e.cache[k].p \in peerAddrs
+
 Step(e) ==
   CASE e.op = "c09run"  -> C09RunOK(e)
+    [] e.op = "c12dump" -> C12DumpOK(e)
+    [] e.op = "c12send" -> FALSE                 \* a payload datagram went to an address that is not a peer
+    [] e.op = "c12end" -> e.panics = 0
     [] e.op = "meshrun" -> MeshRunOK(e)
     [] e.op = "selfdial" -> SelfDialOK(e)
     [] e.op = "interval" -> IntervalEvOK(e)
